@@ -53,7 +53,7 @@ def main():
         exp = vlib.ser_Z(c) + b"\x00" + vlib.ser_bytes(cb) + b"\x00" + vlib.ser_bytes(lb)
         em.add("obs_crc (unpack %s)" % vlib.blob(m), exp, [], "crc of %d-byte %s message" % (len(m), kind),
                {"message": m.hex()}, {"crc": c, "crc2bytes": cb.hex(), "len2bytes": lb.hex()},
-               explain="(calc_crc24q (unpack %s), crc2bytes (unpack %s))" % (vlib.blob(m), vlib.blob(m)), size=len(m))
+               explain="(calc_crc24q (unpack %s), crc2bytes (unpack %s))" % (vlib.blob(m), vlib.blob(m)), size=len(m), spec=["crc", m.hex()])
         # direct: reference remainder
         em.direct_evaluations += 1
         ref = gen.crc24q_ref(m)
